@@ -153,6 +153,10 @@ pub async fn handle<W: AsyncWrite + Unpin>(
         payload: BTreeMap::new(),
     };
     event.set_payload_json(normalized_payload);
+    #[cfg(feature = "verif-hooks")]
+    if let Some(ms) = crate::verif_hooks::now_millis() {
+        event.timestamp = ms / 1000;
+    }
 
     let shard = shard_manager.get_shard(context_id);
     debug!(
